@@ -137,7 +137,8 @@ def run_lines(binary, lines, env=None, timeout=900, model=False):
             return out, "timeout"
     # the implementation answers into a file: print / princ of the program under test write to stdout
     os.makedirs(RUN, exist_ok=True)
-    outp = os.path.join(RUN, "answers-%d-%d.txt" % (os.getpid(), int(time.time() * 1e6) % 10**9))
+    import threading
+    outp = os.path.join(RUN, "answers-%d-%d-%d.txt" % (os.getpid(), threading.get_ident() % 10**6, int(time.time() * 1e6) % 10**9))
     e["HARNESS_OUT"] = outp
     rc = None
     inp = outp + ".in"
@@ -216,6 +217,35 @@ def run_resilient(binary, lines, env=None, timeout=900, model=False, died_marker
             answers[k] = marker
         pos = nxt
     return answers
+
+def safe_boundaries(lines):
+    """indices of NEW lines at which a run may be cut: the default context session (CTX 0) is selected"""
+    out, ctx0 = [], True
+    for i, l in enumerate(lines):
+        if l.startswith("CTX "):
+            ctx0 = l.strip() == "CTX 0"
+        elif l == "NEW" and ctx0:
+            out.append(i)
+    return out
+
+def run_parallel(binary, lines, jobs=1, **kw):
+    """run_resilient on `jobs` consecutive chunks of the request list (cut at case boundaries) in parallel processes;
+    the chunking depends only on the request list, so the answers are reproducible"""
+    if jobs <= 1 or len(lines) < 2000:
+        return run_resilient(binary, lines, **kw)
+    bounds = safe_boundaries(lines)
+    cuts, target = [0], len(lines) / float(jobs)
+    for b in bounds:
+        if b >= target * len(cuts) and b > cuts[-1] and len(cuts) < jobs:
+            cuts.append(b)
+    cuts.append(len(lines))
+    chunks = [lines[a:b] for a, b in zip(cuts, cuts[1:]) if b > a]
+    from concurrent.futures import ThreadPoolExecutor
+    with ThreadPoolExecutor(max_workers=jobs) as ex:
+        parts = list(ex.map(lambda ch: run_resilient(binary, ch, **kw), chunks))
+    out = []
+    for part in parts: out += part
+    return out
 
 # ------------------------------------------------------------------------------------------
 # comparison
